@@ -122,6 +122,7 @@ static std::string runCase(const Opts& o) {
                 }
                 if (s == o.shots - 1) dumpEval(evdump, ev);
                 else { evdump.str(""); }
+                if (o.shots > 1) std::cout << "\x1f--shot--\n";      // per-shot output boundary
             }
         }
     } catch (const support::BlochError& e) {
